@@ -168,11 +168,11 @@ def crateParent (db : Db) (c : Id) : Res (Option Id) :=
   | [p] => .ok (some p)
   | _ => .throw exCrateInconsistent
 
-/-- children(): `SELECT crateIdChild FROM CrateHierarchy WHERE crateId = ?` (sic). -/
-def crateChildren (db : Db) (c : Id) : List Id := (db.ch.filter (·.1 == c)).map (·.2)
+/-- children(): `SELECT crateOriginId FROM CrateParentList WHERE crateParentId = ? AND crateOriginId <> crateParentId`. -/
+def crateChildren (db : Db) (c : Id) : List Id := (db.cpl.filter (fun r => r.2 == c && r.1 != r.2)).map (·.1)
 
-/-- descendants(): `SELECT crateOriginId FROM CrateParentList WHERE crateParentId = ? AND crateOriginId <> crateParentId` (sic). -/
-def crateDescendants (db : Db) (c : Id) : List Id := (db.cpl.filter (fun r => r.2 == c && r.1 != r.2)).map (·.1)
+/-- descendants(): `SELECT crateIdChild FROM CrateHierarchy WHERE crateId = ?`. -/
+def crateDescendants (db : Db) (c : Id) : List Id := (db.ch.filter (·.1 == c)).map (·.2)
 
 def crateTracks (s : Schema) (db : Db) (c : Id) : List Id := ((ctlView s db).filter (·.1 == c)).map (·.2)
 
@@ -181,10 +181,11 @@ def trackContainingCrates (s : Schema) (db : Db) (t : Id) : List Id := ((ctlView
 /-- Last row of an `ORDER BY cr.id` result wins (the callback overwrites). -/
 def lastById (ids : List Id) : Option Id := (sortIds ids).getLast?
 
-/-- sub_crate_by_name: `Crate cr JOIN CrateParentList cpl ON cpl.crateOriginId = cr.id WHERE cr.title = ? AND cpl.crateParentId = ?`. -/
+/-- sub_crate_by_name: `Crate cr JOIN CrateParentList cpl ON cpl.crateOriginId = cr.id WHERE cr.title = ?
+AND cpl.crateParentId = ? AND cpl.crateOriginId <> cpl.crateParentId`. -/
 def subCrateByName (db : Db) (c : Id) (n : Name) : Option Id :=
   lastById ((db.crate.filter (·.title == n)).flatMap fun cr =>
-    (db.cpl.filter (fun r => r.1 == cr.id && r.2 == c)).map (fun _ => cr.id))
+    (db.cpl.filter (fun r => r.1 == cr.id && r.2 == c && r.1 != r.2)).map (fun _ => cr.id))
 
 def rootCrateByName (db : Db) (n : Name) : Option Id :=
   lastById ((db.crate.filter (·.title == n)).flatMap fun cr =>
